@@ -341,6 +341,19 @@ func (ex *Exec) loopHead(fr *Frame, li *loopInfo, st *State) {
 		li.spec = &LoopSpec{}
 	}
 	pos := loopPos(li)
+	// the iteration ghost of a map range loop (its Next sits in the header)
+	for _, in := range li.header.Instrs {
+		if nx, ok := in.(*ssa.Next); ok {
+			if it, ok := fr.vals[nx.Iter].(mapIter); ok {
+				if fr.loopSeen == nil {
+					fr.loopSeen = map[int]mapIter{}
+				}
+				fr.loopSeen[li.number] = it
+			}
+		}
+	}
+	fr.curLoop = li.number
+	defer func() { fr.curLoop = 0 }()
 	// init
 	for _, inv := range li.spec.Invariants {
 		g := ex.specBool(fr, st, inv)
@@ -361,6 +374,8 @@ func (ex *Exec) loopHead(fr *Frame, li *loopInfo, st *State) {
 }
 
 func (ex *Exec) loopBack(fr *Frame, li *loopInfo, st *State, from *ssa.BasicBlock) {
+	fr.curLoop = li.number
+	defer func() { fr.curLoop = 0 }()
 	name := fmt.Sprintf("%s#loop%d", funcKey(ex.top.fn), li.number)
 	pos := loopPos(li)
 	for _, inv := range li.spec.Invariants {
@@ -386,6 +401,7 @@ type modSet struct {
 	allHeap bool
 	allCell bool
 	maps    map[string]types.Type
+	nexts   []*ssa.Next
 }
 
 func newModSet() *modSet {
@@ -411,6 +427,8 @@ func (ex *Exec) instrEffects(fn *ssa.Function, in ssa.Instruction, ms *modSet, b
 		ex.addrEffects(x.Addr, ms, binds)
 	case *ssa.MapUpdate:
 		ms.maps[x.Map.Type().Underlying().String()] = x.Map.Type()
+	case *ssa.Next:
+		ms.nexts = append(ms.nexts, x)
 	case *ssa.Call:
 		ex.callEffects(fn, x.Common(), ms, binds, depth)
 	case *ssa.Defer:
@@ -528,6 +546,9 @@ func (ex *Exec) callEffects(fn *ssa.Function, c *ssa.CallCommon, ms *modSet, bin
 	}
 	switch v := c.Value.(type) {
 	case *ssa.Builtin:
+		if v.Name() == "delete" || v.Name() == "clear" {
+			ms.maps[c.Args[0].Type().Underlying().String()] = c.Args[0].Type()
+		}
 		return
 	case *ssa.MakeClosure:
 		ex.closureEffects(v, ms, binds, depth)
@@ -710,6 +731,14 @@ func (ex *Exec) havocModSet(fr *Frame, st *State, ms *modSet, tag string) {
 		ex.globalGet(st, g)
 		comp := "G:" + relPkgPath(g.Pkg.Pkg) + "." + g.Name()
 		st.heap[comp] = ex.havocValue(st, "Gh_"+g.Name()+"_"+tag, g.Type().(*types.Pointer).Elem()).S
+	}
+	for _, nx := range ms.nexts {
+		if fr == nil {
+			continue
+		}
+		if it, ok := fr.vals[nx.Iter].(mapIter); ok {
+			st.ghost[it.seen] = vc.fresh("seen_"+tag, ex.compSort(it.seen))
+		}
 	}
 	var mks []string
 	for k := range ms.maps {
